@@ -396,13 +396,13 @@ def _compress_tiles(
             # else have 1 chunk per "sample"
             _chunks = (1, *meta.tile.yx)
 
-        if data.chunksize != _chunks:
-            data = data.rechunk(_chunks)
+        # chunksize is the largest chunk only: irregular chunking needs the rechunk too
+        # (a no-op when the chunks already are the regular tile chunking)
+        data = data.rechunk(_chunks)
     else:
         assert meta.num_planes == 1
         src_ydim = 0
-        if data.chunksize != meta.chunks:
-            data = data.rechunk(meta.chunks)
+        data = data.rechunk(meta.chunks)
 
     encoder = _mk_tile_compressor(meta, sample_idx)
 
